@@ -17,6 +17,16 @@ package main
 //	    processors in map-iteration order, so such a scenario is started vlDepStarts times and all starts must agree
 //	    (a field whose outcome differs between starts is observed as `unstable(a|b)`)
 //
+// Two-step histories — the SAME holder is populated twice (see the section "two-step histories" below):
+//
+//	R3 ty cfg evals verdicts set gate tagV tagP tagX     as V3
+//	RE ty cfg evals verdicts set gate tag                as E
+//	RQ ty cfg evals verdicts set gate tag                as Q
+//
+// app.Run with cfg: the holder's first creation FAILS after the placeholder stage ran (gate: n | a0 | a1 | w); then
+// app.Set(key, value) for every entry of set = m(hexkey=val,…); then GetComponentByName(holder): the holder is
+// created and populated a second time.  Observation: `<first creation: ok|err> <field>…` after the second creation.
+//
 // ty      S string | I int | J int64 | U uint | D float64 | B bool | A any | P<ty> | L<ty> | M<ty> | T(hexname:ty:hexvalidate,…)
 // cfg     m(hexkey=val,…)   val = z | s<hex> | i<dec> | F<dec> (integer valued float) | f<decimal> | b0 | b1 | l(val,…) | m(hexkey=val,…)
 // evals   e(hexexpr=val|!,…)   what expr.Compile/Run gives DIRECTLY for the expression texts the real run meets
@@ -39,7 +49,13 @@ package main
 //        placeholders (from the tag's syntax tree, not a regular expression), pushed through
 //        strconv2.FormatAny/ParseAny and mapstructure; Run fails ⇔ that direct path fails or the direct
 //        validator verdict is a failure.  Structs are also generated with a nested section (struct / pointer-to-struct
-//        member with its own `required`), absent, null, all-zero or filled: validate-iff.
+//        member with its own `required`), absent, null, all-zero or filled: validate-iff.  The verdict is the direct
+//        validator's on the field AS DECLARED (a pointer field is handed over as the pointer: `required` holds for a
+//        non-nil pointer to 0 / false / "", `omitempty` does not skip it).
+//   two-step histories: the same oracles on the SECOND creation against the CURRENT configuration (cfg overlaid with
+//        set): C17 V = P = X and X = the current document value; C18 the expression is evaluated on the current
+//        values and validation judges the value actually bound.  A field that still shows what the FIRST configuration
+//        gave is reported as repopulate-stale.
 
 import (
 	"fmt"
@@ -55,7 +71,9 @@ import (
 	"github.com/expr-lang/expr"
 	"github.com/go-kid/ioc/app"
 	"github.com/go-kid/ioc/configure/loader"
+	"github.com/go-kid/ioc/definition"
 	"github.com/go-kid/ioc/syslog"
+	"github.com/go-kid/ioc/util/framework_helper"
 	"github.com/go-kid/strconv2"
 	"github.com/go-kid/strings2"
 	"github.com/go-playground/validator/v10"
@@ -1156,6 +1174,8 @@ type vlVcase struct {
 	literal bool        // C17 literal variant: the V tag is a literal text, subject = its intended value
 	prefill bool        // flag p: the fields hold non-zero defaults before Run
 	dep     bool        // flag d: the holder also has an optional component field
+	set     *vlCval     // kinds R3 RE RQ: the keys changed with app.Set between the two creations (a map)
+	gate    string      // kinds R3 RE RQ: why the first creation fails: n | a0 | a1 | w
 	labels  []string
 }
 
@@ -1209,10 +1229,26 @@ func vlValidateArg(args string) (cs string, present bool) {
 	return "", false
 }
 
+// vlDirectRes: the direct path (oracle side) for one value-like tag under one configuration
+type vlDirectRes struct {
+	bound   reflect.Value
+	fails   bool   // substitution / expression / parse / decode fails
+	skipped bool   // nothing to bind and not required
+	verdict string // "", fail, panic
+	known   bool
+}
+
+var vlHistBase = map[string]string{"R3": "V3", "RE": "E", "RQ": "Q"}
+
 func vlRunCase(c *vlVcase, w *hx.Writer) {
 	rt := c.t.rtype()
 	doc := vlYamlDoc(c.cfg)
 	cfgNative, _ := c.cfg.native().(map[string]any)
+	hist := c.set != nil
+	base := c.kind
+	if hist {
+		base = vlHistBase[c.kind]
+	}
 
 	// tag texts
 	var texts []string
@@ -1220,7 +1256,7 @@ func vlRunCase(c *vlVcase, w *hx.Writer) {
 		texts = append(texts, vlTagText(tr)+c.args)
 	}
 	names := []string{"value"}
-	switch c.kind {
+	switch base {
 	case "V3":
 		names = []string{"value", "prop", "prefix"}
 	case "Q":
@@ -1228,23 +1264,20 @@ func vlRunCase(c *vlVcase, w *hx.Writer) {
 	}
 
 	// the direct path (oracle side): per value-like tag
-	type direct struct {
-		bound   reflect.Value
-		fails   bool   // substitution / expression / parse / decode fails
-		skipped bool   // nothing to bind and not required
-		verdict string // "", fail, panic
-		known   bool
-	}
 	var evals []vlEvalEntry
-	dir := make([]direct, len(texts))
 	required := !strings.Contains(c.args, "required=false")
 	cs, hasValidate := vlValidateArg(c.args)
-	{
+	compute := func(cfgNative map[string]any) []vlDirectRes {
+		dir := make([]vlDirectRes, len(texts))
 		for i, tr := range c.tags {
 			d := &dir[i]
 			d.known = true
 			if names[i] == "prefix" {
 				key := vlTagText(tr)
+				if strings.Contains(key, "${") {
+					// a placeholder inside the prefix tag is substituted first
+					key, _ = vlDirectSubst(vlParseTagTree(key, true), cfgNative, nil)
+				}
 				v := cfgNative[key]
 				if v == nil {
 					if required {
@@ -1291,6 +1324,16 @@ func vlRunCase(c *vlVcase, w *hx.Writer) {
 				d.verdict = vlDirectVerdict(d.bound, cs)
 			}
 		}
+		return dir
+	}
+	dir := compute(cfgNative)
+	// histories: dir is the direct path under the FIRST configuration, dir2 under the CURRENT one (cfg overlaid with set)
+	var dir2 []vlDirectRes
+	var cfg2 *vlCval
+	if hist {
+		cfg2 = vlOverlay(c.cfg, c.set)
+		cfg2Native, _ := cfg2.native().(map[string]any)
+		dir2 = compute(cfg2Native)
 	}
 
 	// expressions that appear only after a configured value was spliced in (re-expansion): evaluated directly
@@ -1327,7 +1370,7 @@ func vlRunCase(c *vlVcase, w *hx.Writer) {
 	evTok, evOK := vlEncEvals(evals)
 	var vp []string
 	seenV := map[string]bool{}
-	for _, d := range dir {
+	for _, d := range append(append([]vlDirectRes{}, dir...), dir2...) {
 		if d.known && !d.fails && hasValidate && d.verdict != "panic" {
 			r := vlRender(d.bound)
 			if !seenV[r] {
@@ -1348,21 +1391,38 @@ func vlRunCase(c *vlVcase, w *hx.Writer) {
 		tagStrs = append(tagStrs, vlStructTag(names[i], tx))
 	}
 	// defaults only where something must be bound (an optional field for which nothing is configured keeps what it holds)
-	prefill := c.prefill && required && vlPrefillSafe(doc, texts)
-	obs, remnant, unstable := vlObserve(rt, tagStrs, doc, prefill, c.dep)
+	prefill := c.prefill && required && vlPrefillSafe(doc, texts) && !hist
+	var obs []string
+	var remnant, unstable bool
+	if hist {
+		obs = vlObserveHistory(rt, tagStrs, doc, c.set, c.gate)
+	} else {
+		obs, remnant, unstable = vlObserve(rt, tagStrs, doc, prefill, c.dep)
+	}
 
 	var hexTags []string
 	for _, tx := range texts {
 		hexTags = append(hexTags, hx.Hex(tx))
 	}
-	scn := strings.Join(append([]string{vlKindTok(c.kind, prefill, c.dep), c.t.code(), c.cfg.tok(), evTok, verdTok}, hexTags...), " ")
+	head := []string{vlKindTok(c.kind, prefill, c.dep && !hist), c.t.code(), c.cfg.tok(), evTok, verdTok}
+	if hist {
+		head = append(head, c.set.tok(), c.gate)
+	}
+	scn := strings.Join(append(head, hexTags...), " ")
 	modelled := evOK
 	if c.kind == "V3" && c.subject != nil && (vlHasUnmodelledForModel(c.t, c.subject) || vlNumTextUnmodelled(c.subject)) {
 		modelled = false
 	}
-	for _, d := range dir {
+	for _, d := range append(append([]vlDirectRes{}, dir...), dir2...) {
 		if d.verdict == "panic" {
 			modelled = false
+		}
+	}
+	if hist {
+		for _, o := range obs {
+			if o == "panic" {
+				modelled = false
+			}
 		}
 	}
 	if !modelled {
@@ -1372,7 +1432,7 @@ func vlRunCase(c *vlVcase, w *hx.Writer) {
 	if prefill {
 		cs2.Tags = append(append([]string{}, cs2.Tags...), "prefill")
 	}
-	if c.dep {
+	if c.dep && !hist {
 		cs2.Tags = append(append([]string{}, cs2.Tags...), "dep")
 	}
 
@@ -1391,23 +1451,21 @@ func vlRunCase(c *vlVcase, w *hx.Writer) {
 		} else if unstable {
 			special = fmt.Sprintf("FAIL start-unstable %d start-ups of the same scenario bound different values: %s", vlDepStarts, strings.Join(obs, " "))
 		}
-		switch c.kind {
-		case "V3":
+		switch {
+		case hist && base == "V3":
+			cs2.Oracle = vlOracleC17History(c, cfg2, obs, cs2.Oracle)
+		case hist:
+			if cs2.Oracle == "" {
+				cs2.Oracle = vlOracleC18History(c, dir[0], dir2[0], len(evals) > 0, hasValidate, obs, texts[0])
+			}
+		case base == "V3":
 			if cs2.Oracle == "" {
 				cs2.Oracle = special
 			}
 			cs2.Oracle = vlOracleC17(c, obs, cs2.Oracle)
 		default:
 			d := dir[0]
-			want := ""
-			switch {
-			case d.verdict == "panic":
-				want = "panic"
-			case d.fails || d.verdict == "fail":
-				want = "err"
-			default:
-				want = vlRender(d.bound)
-			}
+			want := vlWantOf(d)
 			if cs2.Oracle == "" || want == "panic" {
 				cs2.Oracle = ""
 				if obs[0] != want {
@@ -1428,6 +1486,17 @@ func vlRunCase(c *vlVcase, w *hx.Writer) {
 		}
 	}
 	w.Put(cs2)
+}
+
+// vlWantOf: what the direct path demands of the field: its rendering, err or panic.
+func vlWantOf(d vlDirectRes) string {
+	switch {
+	case d.verdict == "panic":
+		return "panic"
+	case d.fails || d.verdict == "fail":
+		return "err"
+	}
+	return vlRender(d.bound)
 }
 
 func vlOracleC17(c *vlVcase, obs []string, prior string) string {
@@ -1479,6 +1548,207 @@ func vlOracleC17(c *vlVcase, obs []string, prior string) string {
 // vlDeclaresDefault: the value tag is the single placeholder `${key:default}`.
 func vlDeclaresDefault(tr []vlTnode) bool {
 	return len(tr) == 1 && tr[0].kind == 'p' && tr[0].dflt != nil
+}
+
+// ---------------------------------------------------------------- two-step histories (kinds R3, RE, RQ)
+//
+// A Property object (TagStr, TagVal, arguments) lives in the definition registry and survives a failed creation; the
+// configuration can be changed through the public Configure.Set.  A history populates the SAME holder twice:
+//
+//	1. app.Run(cfg) — the holder's first creation fails AFTER the placeholder stage ran, because of the gate:
+//	     n    one of the tagged fields itself fails under cfg (its key is absent, its expression is broken, its
+//	          constraint is violated)
+//	     a0 / a1   an extra field `G int `value:"${kgate}"`` — first / last field of the holder — whose key is absent from
+//	          cfg (the value processor fails: "value … is required") and set afterwards
+//	     w    a required dependency `Dep *vlFailOnce `wire:""`` (created lazily) whose Init returns an error as long as its
+//	          upstream is down: the holder is populated completely, then its creation fails while the dependency is
+//	          fetched; the upstream comes up before step 3
+//	2. app.Set(key, value) for every entry of `set`
+//	3. app.GetComponentByName(holder) — the singleton registry dropped the failed entry, the holder is created again
+//
+// The oracles judge the fields after step 3 against the CURRENT configuration.
+
+// vlFailOnce: a lazily created dependency whose initialisation fails while its upstream is down; the harness brings
+// the upstream up between the two creations of the holder.
+type vlFailOnce struct {
+	definition.LazyInitComponent
+	down bool
+}
+
+func (f *vlFailOnce) Init() error {
+	if f.down {
+		return fmt.Errorf("vlFailOnce: upstream not reachable")
+	}
+	return nil
+}
+
+const vlGateKey = "kgate"
+
+// vlOverlay: the configuration after the Set calls.
+func vlOverlay(cfg, set *vlCval) *vlCval {
+	kv := map[string]*vlCval{}
+	for i, k := range cfg.mk {
+		kv[k] = cfg.mv[i]
+	}
+	for i, k := range set.mk {
+		kv[k] = set.mv[i]
+	}
+	return vlCMap(kv)
+}
+
+// vlRunHistory runs one history on a holder with the given tagged fields; first = outcome of Run, second = outcome
+// of the second creation, vals = the tagged fields after it.
+func vlRunHistory(t reflect.Type, tags []string, doc string, set *vlCval, gate string) (first string, vals []reflect.Value, second string) {
+	var fs []reflect.StructField
+	gateField := reflect.StructField{Name: "G", Type: reflect.TypeOf(int(0)), Tag: reflect.StructTag(vlStructTag("value", "${"+vlGateKey+"}"))}
+	if gate == "a0" {
+		fs = append(fs, gateField)
+	}
+	off := len(fs)
+	for i, tg := range tags {
+		fs = append(fs, reflect.StructField{Name: fmt.Sprintf("H%d", i), Type: t, Tag: reflect.StructTag(tg)})
+	}
+	if gate == "a1" {
+		fs = append(fs, gateField)
+	}
+	comps := []any{nil}
+	upstream := &vlFailOnce{down: true}
+	if gate == "w" {
+		fs = append(fs, reflect.StructField{Name: "Dep", Type: reflect.TypeOf((*vlFailOnce)(nil)), Tag: `wire:""`})
+		comps = append(comps, upstream)
+	}
+	holder := reflect.New(reflect.StructOf(fs))
+	comps[0] = holder.Interface()
+	name := framework_helper.GetComponentName(holder.Interface())
+	var err1, err2 error
+	pan := hx.Guard(func() {
+		a := app.NewApp()
+		err1 = a.Run(app.LogLevel(syslog.LvPanic), app.SetConfigLoader(loader.NewRawLoader([]byte(doc))), app.SetComponents(comps...))
+		for i, k := range set.mk {
+			a.Set(k, set.mv[i].native())
+		}
+		upstream.down = false
+		_, err2 = a.GetComponentByName(name)
+		a.Close()
+	})
+	if pan != nil {
+		return "panic", nil, "panic"
+	}
+	first, second = "ok", "ok"
+	if err1 != nil {
+		first = "err"
+	}
+	if err2 != nil {
+		return first, nil, "err"
+	}
+	for i := range tags {
+		vals = append(vals, holder.Elem().Field(off+i))
+	}
+	return first, vals, second
+}
+
+// vlObserveHistory: `<first> <field>…`; when the second creation fails with several tagged fields, one history per tag
+// (as vlObserveOnce does for a single start-up).
+func vlObserveHistory(t reflect.Type, tagStrs []string, doc string, set *vlCval, gate string) []string {
+	obs := make([]string, 1+len(tagStrs))
+	first, vals, second := vlRunHistory(t, tagStrs, doc, set, gate)
+	obs[0] = first
+	switch {
+	case second == "ok":
+		for i := range tagStrs {
+			obs[1+i] = vlRender(vals[i])
+		}
+	case len(tagStrs) == 1:
+		obs[1] = second
+	default:
+		for i := range tagStrs {
+			_, v1, o1 := vlRunHistory(t, tagStrs[i:i+1], doc, set, gate)
+			if o1 == "ok" {
+				obs[1+i] = vlRender(v1[0])
+			} else {
+				obs[1+i] = o1
+			}
+		}
+	}
+	return obs
+}
+
+// vlHistSubject: the document value the three tags of an R3 case denote under the given configuration (the prefix
+// tag may name its key through a placeholder).
+func vlHistSubject(c *vlVcase, cfg *vlCval) *vlCval {
+	key := vlTagText(c.tags[2])
+	if strings.Contains(key, "${") {
+		native, _ := cfg.native().(map[string]any)
+		key, _ = vlDirectSubst(vlParseTagTree(key, true), native, nil)
+	}
+	for i, k := range cfg.mk {
+		if k == key {
+			return cfg.mv[i]
+		}
+	}
+	return vlCNull()
+}
+
+// vlOracleC17History: C17 on the second creation — X (prefix) = the CURRENT document value, V = P, V = X.
+func vlOracleC17History(c *vlVcase, cfg2 *vlCval, obs []string, prior string) string {
+	if prior != "" {
+		return prior
+	}
+	c2 := *c
+	c2.literal = false
+	c2.subject = vlHistSubject(c, cfg2)
+	res := vlOracleC17(&c2, obs[1:], "")
+	if res == "" {
+		return ""
+	}
+	if len(vlRiskClasses(c2.subject)) == 0 {
+		// not one of the lossy classes: does the field still show what the FIRST configuration gave?
+		old := vlHistSubject(c, c.cfg)
+		stale := "err" // nothing was configured first: the value tag stayed empty
+		if old.k != 'z' {
+			if r, ok := vlExpectRender(old, c.t); ok {
+				stale = r
+			}
+		}
+		if (obs[1] == stale || obs[2] == stale) && obs[3] != stale {
+			return "FAIL repopulate-stale after the second creation (first=" + obs[0] + ") " + strings.TrimPrefix(res, "FAIL ") + " stale=" + stale
+		}
+	}
+	return res
+}
+
+// vlOracleC18History: C18 on a history.  The second creation must give the direct result under the CURRENT
+// configuration (expression evaluated on the substituted current values, validation judging the value bound);
+// the first creation of a gate-less history fails exactly when the direct path under the first configuration does.
+func vlOracleC18History(c *vlVcase, d1, d2 vlDirectRes, hasEvals, hasValidate bool, obs []string, text string) string {
+	want1, want2 := vlWantOf(d1), vlWantOf(d2)
+	if want1 == "panic" || want2 == "panic" {
+		return "" // the direct validator panics on this constraint: no expectation
+	}
+	if c.gate == "n" && (obs[0] == "err") != (want1 == "err") {
+		sig := "expr-result"
+		if hasValidate {
+			sig = "validate-iff"
+		}
+		return fmt.Sprintf("FAIL %s first creation=%s direct=%s tag=%q", sig, obs[0], want1, text)
+	}
+	if obs[1] == want2 {
+		return ""
+	}
+	sig := "expr-result"
+	old := ""
+	if !d1.fails {
+		old = vlRender(d1.bound)
+	}
+	switch {
+	case obs[0] == "err" && (obs[1] == old || obs[1] == want1) && want1 != want2:
+		sig = "repopulate-stale"
+	case hasValidate && (obs[1] == "err") != (want2 == "err"):
+		sig = "validate-iff"
+	case !hasEvals:
+		sig = "bind-direct"
+	}
+	return fmt.Sprintf("FAIL %s second creation (first=%s) field=%s direct=%s tag=%q", sig, obs[0], obs[1], want2, text)
 }
 
 // ---------------------------------------------------------------- replay
@@ -1566,11 +1836,30 @@ func vlValueReplay(scn string, w *hx.Writer) {
 	kind, flags, _ := strings.Cut(f[0], "+")
 	c := &vlVcase{kind: kind, t: t, cfg: cfg, labels: []string{"replay"},
 		prefill: strings.Contains(flags, "p"), dep: strings.Contains(flags, "d")}
-	want := map[string]int{"V3": 3, "E": 1, "Q": 1}[kind]
-	if want == 0 || len(f[5:]) != want {
+	tagToks := f[5:]
+	base := kind
+	if b, hist := vlHistBase[kind]; hist {
+		// R3 / RE / RQ: … set gate tag…
+		if len(f) < 8 {
+			return
+		}
+		set, rest, ok := vlParseCval(f[5])
+		if !ok || rest != "" || set.k != 'm' {
+			return
+		}
+		switch f[6] {
+		case "n", "a0", "a1", "w":
+		default:
+			return
+		}
+		c.set, c.gate, base, tagToks = set, f[6], b, f[7:]
+		c.prefill, c.dep = false, false
+	}
+	want := map[string]int{"V3": 3, "E": 1, "Q": 1}[base]
+	if want == 0 || len(tagToks) != want {
 		return
 	}
-	for i, h := range f[5:] {
+	for i, h := range tagToks {
 		s, err := hx.UnHex(h)
 		if err != nil {
 			return
@@ -1581,7 +1870,7 @@ func vlValueReplay(scn string, w *hx.Writer) {
 		} else if args != c.args {
 			return
 		}
-		if c.kind == "Q" || i > 0 {
+		if base == "Q" || i > 0 {
 			c.tags = append(c.tags, []vlTnode{vlTLit(val)})
 		} else {
 			c.tags = append(c.tags, vlParseTagTree(val, false))
@@ -1599,6 +1888,9 @@ func vlValueReplay(scn string, w *hx.Writer) {
 		// `${key}` or `${key:default}` next to `prop:"key[:default]"` and `prefix:"key"`; anything else is a literal
 		c.literal = !(len(tr) == 1 && tr[0].kind == 'p' && tr[0].key == key)
 	}
+	if c.kind == "R3" {
+		c.subject = vlHistSubject(c, vlOverlay(cfg, c.set))
+	}
 	vlRunCase(c, w)
 }
 
@@ -1614,6 +1906,10 @@ var (
 	vlTA  = &vlFty{k: 'A'}
 	vlTPS = &vlFty{k: 'P', elem: vlTS}
 	vlTPI = &vlFty{k: 'P', elem: vlTI}
+	vlTPJ = &vlFty{k: 'P', elem: vlTJ}
+	vlTPU = &vlFty{k: 'P', elem: vlTU}
+	vlTPD = &vlFty{k: 'P', elem: vlTD}
+	vlTPB = &vlFty{k: 'P', elem: vlTB}
 	vlTLS = &vlFty{k: 'L', elem: vlTS}
 	vlTLI = &vlFty{k: 'L', elem: vlTI}
 	vlTLA = &vlFty{k: 'L', elem: vlTA}
@@ -2801,6 +3097,394 @@ func vlGenNestedValidateCase(r *hx.Rng) *vlVcase {
 	return c
 }
 
+// ---- C18: pointer fields bound to the ZERO value of their pointee
+
+// vlGenPtrZeroValidateCase: a pointer-typed field (*int *int64 *uint *float64 *bool *string) bound — through ${k}, by
+// prefix or as the result of an expression — mostly to the zero value of its pointee (0, 0.0, false, ""), with a
+// constraint of the has-a-value family: the validator is handed the field as declared, i.e. the POINTER, so `required`
+// holds for every non-nil pointer and `omitempty` does not skip a non-nil pointer to a zero value.
+func vlGenPtrZeroValidateCase(r *hx.Rng) *vlVcase {
+	labels := []string{"validate", "pointer"}
+	pick := func(opts ...string) string { return opts[r.Intn(len(opts))] }
+	key := vlGenKey(r)
+	zero := r.P(3, 4)
+	if zero {
+		labels = append(labels, "pointee-zero")
+	}
+	var t *vlFty
+	var v *vlCval
+	var cons string
+	byPrefixOnly := false
+	var tree []vlTnode // nil: the placeholder ${key}
+	cfg := map[string]*vlCval{}
+	switch r.Intn(7) {
+	case 0, 1: // integers
+		t = []*vlFty{vlTPI, vlTPI, vlTPJ, vlTPU}[r.Intn(4)]
+		v = vlCInt(0)
+		if !zero {
+			v = vlCInt(int64(1 + r.Intn(9)))
+		}
+		cons = pick("required", "required", "omitempty min=1", "omitempty gt=0", "omitempty ne=0", "required lte=9", "omitempty max=5", "omitempty oneof=1 2 3", "required min=0")
+		labels = append(labels, "int")
+	case 2: // booleans
+		t = vlTPB
+		v = vlCBool(!zero)
+		cons = pick("required", "required", "omitempty eq=true", "omitempty ne=false", "required ne=true")
+		labels = append(labels, "bool")
+	case 3: // floats
+		t = vlTPD
+		v = &vlCval{k: 'F', i: 0}
+		if !zero {
+			v = vlCDec(strings.TrimPrefix(vlGenDec(r), "-"))
+		}
+		cons = pick("required", "omitempty gt=0", "omitempty min=1", "required lt=100000")
+		labels = append(labels, "float")
+	case 4: // strings: an empty value is bound by prefix only (through ${k} an empty text counts as absent)
+		t = vlTPS
+		v = vlCStr("")
+		if !zero {
+			v = vlCStr(vlGenPlainWord(r))
+		}
+		byPrefixOnly = zero
+		cons = pick("required", "required", "omitempty min=2", "omitempty len=3", "omitempty ne=", "required max=6")
+		labels = append(labels, "string")
+	case 5: // the result of an arithmetic expression
+		t = []*vlFty{vlTPI, vlTPJ, vlTPD}[r.Intn(3)]
+		n := int64(0)
+		if !zero {
+			n = int64(1 + r.Intn(9))
+		}
+		cfg["ke1"] = vlCInt(n)
+		tree = []vlTnode{vlTExpr(vlCat([]vlTnode{vlTPH("ke1")}, vlLit(pick("*2", " * 3", "+0", " - 0")))...)}
+		cons = pick("required", "omitempty min=1", "omitempty gt=0", "required lte=30")
+		labels = append(labels, "expr", "int")
+	default: // the result of a boolean expression
+		t = vlTPB
+		n := int64(r.Intn(3))
+		if !zero {
+			n = int64(4 + r.Intn(5))
+		}
+		cfg["ke1"] = vlCInt(n)
+		tree = []vlTnode{vlTExpr(vlCat([]vlTnode{vlTPH("ke1")}, vlLit(pick(">3", " > 3", " >= 4")))...)}
+		cons = pick("required", "omitempty eq=true", "required ne=true")
+		labels = append(labels, "expr", "bool")
+	}
+	c := &vlVcase{kind: "E", t: t, args: ",validate=" + cons}
+	if tree != nil {
+		c.tags = [][]vlTnode{tree}
+	} else {
+		cfg[key] = v
+		c.tags = [][]vlTnode{{vlTPH(key)}}
+		if byPrefixOnly || r.P(1, 3) {
+			c.kind = "Q"
+			c.tags = [][]vlTnode{{vlTLit(key)}}
+			labels = append(labels, "by-prefix")
+		}
+	}
+	if r.P(1, 8) {
+		c.args += ",required=false"
+	}
+	c.cfg = vlCMap(cfg)
+	c.labels = labels
+	c.dep = r.P(1, 10) // drawn last
+	return c
+}
+
+// ---- two-step histories: generators
+
+// vlGenSafeFor: a document value that matches the type and is in none of the lossy classes of the value path (for such
+// a value V = P = X is demanded outright).
+func vlGenSafeFor(r *hx.Rng, t *vlFty) (*vlCval, bool) {
+	for try := 0; try < 8; try++ {
+		v := vlGenForType(r, t)
+		if v.k == 'z' || len(vlRiskClasses(v)) != 0 || vlHasUnmodelledForModel(t, v) {
+			continue
+		}
+		if _, ok := vlExpectRender(v, t); !ok {
+			continue
+		}
+		return v, true
+	}
+	return nil, false
+}
+
+// vlGenSafePair: a field type and two document values for it that bind DIFFERENT field contents.
+func vlGenSafePair(r *hx.Rng) (*vlFty, *vlCval, *vlCval) {
+	for try := 0; try < 40; try++ {
+		t := vlGenType(r)
+		if r.P(1, 8) {
+			t = &vlFty{k: 'P', elem: vlGenStructType(r, 0)} // the second population finds an allocated pointer
+		}
+		v1, ok1 := vlGenSafeFor(r, t)
+		v2, ok2 := vlGenSafeFor(r, t)
+		if !ok1 || !ok2 {
+			continue
+		}
+		r1, _ := vlExpectRender(v1, t)
+		r2, _ := vlExpectRender(v2, t)
+		if r1 != r2 {
+			return t, v1, v2
+		}
+	}
+	return vlTS, vlCStr("first"), vlCStr("second")
+}
+
+func vlGenGate(r *hx.Rng, withN bool) string {
+	if withN && r.P(1, 6) {
+		return "n"
+	}
+	return []string{"a0", "a0", "a1", "a1", "w", "w", "w"}[r.Intn(7)]
+}
+
+// vlGenC17Retry: holder struct{ V T `value:"${k}"`; P T `prop:"k"`; X T `prefix:"k"` } populated twice: k is configured
+// with v1 (or not at all) when the first creation fails, then set to v2; one case in five names the key through another
+// placeholder (`value:"${${kenv}}"`, `prop:"${kenv}"`, `prefix:"${kenv}"`) and repoints kenv instead.
+func vlGenC17Retry(r *hx.Rng) *vlVcase {
+	t, v1, v2 := vlGenSafePair(r)
+	key := vlGenKey(r)
+	labels := []string{"retry", "type-" + string(t.k)}
+	kv := map[string]*vlCval{"kz": vlCStr("zz")}
+	set := map[string]*vlCval{}
+	c := &vlVcase{kind: "R3", t: t, subject: v2}
+	if r.P(1, 5) {
+		k1, k2 := key+"a", key+"b"
+		kv[k1], kv[k2], kv["kenv"] = v1, v2, vlCStr(k1)
+		set["kenv"] = vlCStr(k2)
+		c.tags = [][]vlTnode{{vlTLit("${"), vlTPH("kenv"), vlTLit("}")}, {vlTLit("${kenv}")}, {vlTLit("${kenv}")}}
+		c.gate = vlGenGate(r, false)
+		labels = append(labels, "indirect")
+	} else {
+		c.tags = [][]vlTnode{{vlTPH(key)}, {vlTLit(key)}, {vlTLit(key)}}
+		c.gate = vlGenGate(r, true)
+		if c.gate != "n" {
+			kv[key] = v1 // gate n: the key is not configured at all when the first creation fails
+		}
+		set[key] = v2
+	}
+	if c.gate == "a0" || c.gate == "a1" {
+		set[vlGateKey] = vlCInt(1)
+	}
+	c.cfg, c.set = vlCMap(kv), vlCMap(set)
+	c.labels = append(labels, "gate-"+c.gate)
+	return c
+}
+
+var vlExprOps = []string{"+", "-", "*", "/"}
+
+// vlVaryValue: another value of the same kind (sign and quoting kept, so that it fits wherever the first one did);
+// t (may be nil) tells the element kind of an empty list.
+func vlVaryValue(r *hx.Rng, v *vlCval, t *vlFty) *vlCval {
+	switch v.k {
+	case 'i':
+		n := int64(r.Intn(14))
+		if r.P(1, 4) {
+			n = int64(r.Intn(200))
+		}
+		if v.i < 0 {
+			n = -int64(1 + r.Intn(60))
+		}
+		if n == v.i {
+			n++
+		}
+		return vlCInt(n)
+	case 'F':
+		return &vlCval{k: 'F', i: v.i + 1 + int64(r.Intn(5))}
+	case 'f':
+		for {
+			d := strings.TrimPrefix(vlGenDec(r), "-")
+			if d != v.s {
+				return vlCDec(d)
+			}
+		}
+	case 'b':
+		return vlCBool(!v.b)
+	case 's':
+		for _, op := range vlExprOps {
+			if v.s == op {
+				o := vlExprOps[r.Intn(len(vlExprOps))]
+				if o == op {
+					o = vlExprOps[(r.Intn(3)+1+indexOf(vlExprOps, op))%len(vlExprOps)]
+				}
+				return vlCStr(o)
+			}
+		}
+		w := vlGenPlainWord(r)
+		if len(v.s) >= 2 && v.s[0] == '"' && v.s[len(v.s)-1] == '"' {
+			if `"`+w+`"` == v.s {
+				w += "q"
+			}
+			return vlCStr(`"` + w + `"`)
+		}
+		if v.s != "" && strings.Trim(v.s, "0123456789") == "" {
+			w = vlGenDigits(r, 1+r.Intn(4), true)
+		}
+		if w == v.s {
+			w += "7"
+		}
+		return vlCStr(w)
+	case 'l':
+		out := &vlCval{k: 'l'}
+		if len(v.l) == 0 {
+			if t != nil && t.k == 'L' && t.elem.k == 'S' {
+				out.l = append(out.l, vlCStr(vlGenPlainWord(r)))
+			} else if t != nil && t.k == 'L' {
+				out.l = append(out.l, vlCInt(int64(r.Intn(9))))
+			}
+			return out
+		}
+		if r.Bool() && len(v.l) > 1 {
+			out.l = append(out.l, v.l[:len(v.l)-1]...)
+			return out
+		}
+		out.l = append(append(out.l, v.l...), vlVaryValue(r, v.l[0], nil))
+		return out
+	case 'm':
+		kv := map[string]*vlCval{}
+		for i, k := range v.mk {
+			kv[k] = v.mv[i]
+		}
+		if len(v.mk) > 0 {
+			i := r.Intn(len(v.mk))
+			kv[v.mk[i]] = vlVaryValue(r, v.mv[i], nil)
+		}
+		return vlCMap(kv)
+	}
+	return v
+}
+
+func indexOf(l []string, s string) int {
+	for i, x := range l {
+		if x == s {
+			return i
+		}
+	}
+	return 0
+}
+
+var vlExprValidates = []string{"min=0", "max=100", "gte=10 lte=1000", "ne=0", "required", "min=10", "lt=50"}
+
+// vlGenExprRetry: a `#{…}` value tag over placeholders, populated twice; at least one configured operand (a number, a
+// boolean, a string, the operator itself) changes between the two creations.  One case in four has no gate: the tagged
+// field itself fails first (its constraint is violated by the first result, or an operand is not configured yet).
+func vlGenExprRetry(r *hx.Rng) *vlVcase {
+	if r.P(1, 4) {
+		return vlGenExprRetrySelf(r)
+	}
+	var c *vlVcase
+	for try := 0; try < 20; try++ {
+		c = vlGenExprCaseWith(r, r.P(1, 4))
+		if len(c.cfg.mk) > 0 && !vlHasLabel(c.labels, "broken") {
+			break
+		}
+		c = nil
+	}
+	if c == nil {
+		c = vlExprCase(vlTI, map[string]*vlCval{"ke1": vlCInt(int64(r.Intn(30)))}, "", vlTExpr(vlTPH("ke1"), vlTLit("*2")))
+		c.labels = []string{"expr", "arith"}
+	}
+	if c.args == "" && r.Bool() && (c.t.k == 'I' || c.t.k == 'D' || c.t.k == 'J') {
+		c.args = ",validate=" + vlExprValidates[r.Intn(len(vlExprValidates))]
+		c.labels = append(c.labels, "validated")
+	}
+	set := map[string]*vlCval{}
+	forced := r.Intn(len(c.cfg.mk))
+	for i, k := range c.cfg.mk {
+		if i == forced || r.P(1, 2) {
+			set[k] = vlVaryValue(r, c.cfg.mv[i], nil)
+		}
+	}
+	c.kind, c.dep, c.prefill = "RE", false, false
+	c.gate = vlGenGate(r, false)
+	if c.gate == "a0" || c.gate == "a1" {
+		set[vlGateKey] = vlCInt(1)
+	}
+	c.set = vlCMap(set)
+	c.labels = append(append([]string{"retry"}, c.labels...), "gate-"+c.gate)
+	return c
+}
+
+func vlHasLabel(ls []string, l string) bool {
+	for _, x := range ls {
+		if x == l {
+			return true
+		}
+	}
+	return false
+}
+
+// vlGenExprRetrySelf: no gate.  Either `#{${ke1} op n},validate=min=M` whose first result violates min=M (the second
+// satisfies it in three cases of four), or `#{${ke1} op n}` with ke1 not configured when the first creation runs.
+func vlGenExprRetrySelf(r *hx.Rng) *vlVcase {
+	t := []*vlFty{vlTI, vlTJ, vlTD, vlTPI, vlTS}[r.Intn(5)]
+	a1, a2 := int64(r.Intn(6)), int64(20+r.Intn(40))
+	lit := int64(r.Intn(6))
+	op := "+"
+	f := func(a int64) int64 { return a + lit }
+	if r.Bool() {
+		op, lit = "*", int64(1+r.Intn(3))
+		f = func(a int64) int64 { return a * lit }
+	}
+	body := []vlTnode{vlTPH("ke1"), vlTLit(op + strconv.FormatInt(lit, 10))}
+	if r.P(1, 3) {
+		body = []vlTnode{vlTPH("ke1"), vlTLit(op), vlTPHD("ke2", strconv.FormatInt(lit, 10))} // the second operand is a default
+	}
+	c := &vlVcase{kind: "RE", t: t, gate: "n", tags: [][]vlTnode{{vlTExpr(body...)}}}
+	labels := []string{"retry", "expr", "arith", "gate-n"}
+	if r.P(2, 3) && t.k != 'S' {
+		m := f(a1) + 1 + int64(r.Intn(int(f(a2)-f(a1))))
+		if r.P(1, 4) {
+			m = f(a2) + 1 + int64(r.Intn(5)) // the second result violates the constraint as well
+		}
+		c.args = ",validate=min=" + strconv.FormatInt(m, 10)
+		c.cfg = vlCMap(map[string]*vlCval{"ke1": vlCInt(a1)})
+		labels = append(labels, "validated")
+	} else {
+		// ke1 is not configured yet: `#{*n}` does not compile (`#{+n}` would: a unary plus)
+		op, lit = "*", int64(1+r.Intn(3))
+		c.tags = [][]vlTnode{{vlTExpr(vlTPH("ke1"), vlTLit(op+strconv.FormatInt(lit, 10)))}}
+		c.cfg = vlCMap(map[string]*vlCval{"kz": vlCStr("zz")})
+		labels = append(labels, "operand-absent-first")
+	}
+	c.set = vlCMap(map[string]*vlCval{"ke1": vlCInt(a2)})
+	c.labels = labels
+	return c
+}
+
+// vlGenValidateRetry: a value x constraint pair (vlGenValidateCase / vlGenNestedValidateCase) populated twice: the
+// configured value changes between the two creations; validation must judge the value bound by the SECOND one.
+func vlGenValidateRetry(r *hx.Rng) *vlVcase {
+	var c *vlVcase
+	for try := 0; try < 30; try++ {
+		if r.P(1, 6) {
+			c = vlGenNestedValidateCase(r)
+		} else {
+			c = vlGenValidateCase(r)
+		}
+		if !strings.Contains(c.args, "required=false") && len(c.cfg.mk) == 1 && c.cfg.mk[0] != "kother" {
+			break
+		}
+		c = nil
+	}
+	if c == nil {
+		c = vlExprCase(vlTI, map[string]*vlCval{"k": vlCInt(2)}, ",validate=min=3", vlTPH("k"))
+		c.labels = []string{"validate", "int"}
+	}
+	set := map[string]*vlCval{c.cfg.mk[0]: vlVaryValue(r, c.cfg.mv[0], c.t)}
+	if c.kind == "Q" {
+		c.kind = "RQ"
+	} else {
+		c.kind = "RE"
+	}
+	c.dep, c.prefill = false, false
+	c.gate = vlGenGate(r, false)
+	if c.gate == "a0" || c.gate == "a1" {
+		set[vlGateKey] = vlCInt(1)
+	}
+	c.set = vlCMap(set)
+	c.labels = append(append([]string{"retry"}, c.labels...), "gate-"+c.gate)
+	return c
+}
+
 // vlReseed decorrelates consecutive seeds: hx.NewRng(s+1) is hx.NewRng(s) advanced by one draw, so without this
 // the seeds s, s+1, s+2 of the thorough tier would generate the same cases shifted by one.
 func vlReseed(rng *hx.Rng) *hx.Rng { return hx.NewRng(rng.U64() ^ 0x5bd1e9955bd1e995) }
@@ -2810,6 +3494,8 @@ func vlValueGen(rng *hx.Rng, n int, tier string, w *hx.Writer) {
 	for i := 0; i < n; i++ {
 		r := rng.Fork()
 		switch {
+		case i%10 == 7: // every tenth case populates the same holder twice, the configuration changed in between
+			vlRunCase(vlGenC17Retry(r), w)
 		case i%6 == 4: // every sixth case declares a default in the placeholder and in the shorthand
 			vlRunCase(vlGenC17Default(r), w)
 		case r.P(1, 8):
@@ -2826,6 +3512,12 @@ func init() {
 		for i := 0; i < n; i++ {
 			r := rng.Fork()
 			switch {
+			case i%12 == 7: // an expression populated twice, operands changed in between
+				vlRunCase(vlGenExprRetry(r), w)
+			case i%12 == 9: // a value x constraint pair populated twice
+				vlRunCase(vlGenValidateRetry(r), w)
+			case i%12 == 11 || i%12 == 3: // pointer fields bound to the zero value of their pointee
+				vlRunCase(vlGenPtrZeroValidateCase(r), w)
 			case i%12 == 5: // structs with a nested section that carries its own constraint
 				vlRunCase(vlGenNestedValidateCase(r), w)
 			case i%12 == 4: // expressions whose configured operands declare defaults
@@ -2865,6 +3557,8 @@ func vlValueCorpus(w *hx.Writer) {
 		}
 	}
 	vlRunCase(vlC17case(vlTD, vlCDec("3.25"), ""), w)
+	vlRunCase(vlC17case(vlTD, vlCDec("1234.56789"), ""), w) // nine significant digits: more than a float32 carries
+	vlRunCase(vlC17case(vlTS, vlCDec("0.123456789"), ""), w)
 	vlRunCase(vlC17case(vlTS, vlCDec("-0.5"), ""), w)
 	vlRunCase(vlC17case(vlTI, vlCDec("3.75"), ""), w)
 	vlRunCase(vlC17case(vlTB, vlCBool(true), ""), w)
@@ -2928,6 +3622,43 @@ func vlValueCorpus(w *hx.Writer) {
 		vlRunCase(c, w)
 		c2 := *c
 		vlRunCase(vlWith(&c2, true, l.t.k == 'L'), w)
+	}
+	vlValueRetryCorpus(w)
+}
+
+// vlValueRetryCorpus: the same holder populated twice (the first creation fails, the configuration is changed with
+// app.Set, the holder is fetched again): value placeholder, shorthand and prefix twin must all show the CURRENT value.
+func vlValueRetryCorpus(w *hx.Writer) {
+	mk := func(t *vlFty, v1, v2 *vlCval, gate string) *vlVcase {
+		kv := map[string]*vlCval{"kz": vlCStr("zz")}
+		if v1 != nil {
+			kv["k"] = v1
+		}
+		set := map[string]*vlCval{"k": v2}
+		if gate == "a0" || gate == "a1" {
+			set[vlGateKey] = vlCInt(1)
+		}
+		return &vlVcase{kind: "R3", t: t, cfg: vlCMap(kv), set: vlCMap(set), gate: gate, subject: v2,
+			tags: [][]vlTnode{{vlTPH("k")}, {vlTLit("k")}, {vlTLit("k")}}, labels: []string{"corpus", "retry", "gate-" + gate}}
+	}
+	for _, gate := range []string{"a0", "a1", "w"} {
+		vlRunCase(mk(vlTS, vlCStr("a.example.org"), vlCStr("b.example.org"), gate), w)
+		vlRunCase(mk(vlTI, vlCInt(5), vlCInt(7), gate), w)
+	}
+	vlRunCase(mk(vlTS, nil, vlCStr("b.example.org"), "n"), w) // not configured at all when the first creation runs
+	vlRunCase(mk(vlTB, vlCBool(true), vlCBool(false), "w"), w)
+	vlRunCase(mk(vlTD, vlCDec("0.25"), vlCDec("1.5"), "a1"), w)
+	vlRunCase(mk(vlTLS, vlCList(vlCStr("a"), vlCStr("b")), vlCList(vlCStr("c")), "w"), w)
+	vlRunCase(mk(vlTMA, vlCMap(map[string]*vlCval{"a": vlCInt(1)}), vlCMap(map[string]*vlCval{"b": vlCStr("x y")}), "a0"), w)
+	vlRunCase(mk(vlTPI, vlCInt(5), vlCInt(0), "w"), w)
+	st := &vlFty{k: 'T', fields: []vlFfield{{"host", vlTS, ""}, {"port", vlTI, ""}}}
+	vlRunCase(mk(st, vlCMap(map[string]*vlCval{"host": vlCStr("a"), "port": vlCInt(80)}), vlCMap(map[string]*vlCval{"host": vlCStr("b")}), "w"), w)
+	// the key itself comes from the configuration: hosts by environment
+	for _, gate := range []string{"a0", "w"} {
+		vlRunCase(&vlVcase{kind: "R3", t: vlTS, gate: gate, subject: vlCStr("http://localhost:8080"),
+			cfg: vlCMap(map[string]*vlCval{"kenv": vlCStr("kdev"), "kdev": vlCStr("https://api.dev.example.org"), "klocal": vlCStr("http://localhost:8080")}),
+			set: vlCMap(map[string]*vlCval{"kenv": vlCStr("klocal"), vlGateKey: vlCInt(1)}),
+			tags: [][]vlTnode{{vlTLit("${"), vlTPH("kenv"), vlTLit("}")}, {vlTLit("${kenv}")}, {vlTLit("${kenv}")}}, labels: []string{"corpus", "retry", "indirect", "gate-" + gate}}, w)
 	}
 }
 
@@ -3010,4 +3741,47 @@ func vlValueExprCorpus(w *hx.Writer) {
 	vlRunCase(vlWith(vlExprCase(st, m("a", 80), ",validate", vlTPH("k")), false, true), w)
 	q2 := *q
 	vlRunCase(vlWith(&q2, false, true), w)
+	// pointer fields bound to the zero value of their pointee: the validator is handed the pointer — `required` holds,
+	// `omitempty` does not skip
+	zc := map[string]*vlCval{"retries": vlCInt(0), "verbosity": vlCInt(1), "burst": vlCInt(0), "ratio": {k: 'F', i: 0}, "debug": vlCBool(false), "name": vlCStr(""), "n": vlCInt(4)}
+	vlRunCase(vlExprCase(vlTPI, zc, ",validate=required", vlTPH("retries")), w)
+	vlRunCase(vlExprCase(vlTPB, zc, ",validate=required", vlTExpr(vlTPH("verbosity"), vlTLit(">3"))), w)
+	vlRunCase(vlExprCase(vlTPI, zc, ",validate=omitempty min=1", vlTExpr(vlTPH("burst"), vlTLit("*2"))), w)
+	vlRunCase(vlExprCase(vlTPI, zc, ",validate=omitempty min=1", vlTPH("burst")), w)
+	vlRunCase(vlExprCase(vlTPB, zc, ",validate=omitempty eq=true", vlTPH("debug")), w)
+	vlRunCase(vlExprCase(vlTPD, zc, ",validate=required", vlTPH("ratio")), w)
+	vlRunCase(vlExprCase(vlTPD, zc, ",validate=omitempty gt=0", vlTPH("ratio")), w)
+	vlRunCase(vlExprCase(vlTPU, zc, ",validate=required", vlTPH("retries")), w)
+	vlRunCase(vlExprCase(vlTPJ, zc, ",validate=required min=0", vlTPH("retries")), w)
+	vlRunCase(vlExprCase(vlTPI, zc, ",validate=required min=5", vlTExpr(vlTPH("verbosity"), vlTLit("+4"))), w) // controls: non-zero pointees
+	vlRunCase(vlExprCase(vlTPI, zc, ",validate=required min=5", vlTExpr(vlTPH("verbosity"), vlTLit("+3"))), w)
+	vlRunCase(vlExprCase(vlTPI, zc, ",validate=omitempty min=5", vlTPH("n")), w)
+	for _, cons := range []string{"required", "omitempty min=2"} {
+		vlRunCase(&vlVcase{kind: "Q", t: vlTPS, cfg: vlCMap(zc), args: ",validate=" + cons, tags: [][]vlTnode{{vlTLit("name")}}, labels: []string{"corpus"}}, w)
+		vlRunCase(&vlVcase{kind: "Q", t: vlTPI, cfg: vlCMap(zc), args: ",validate=" + cons, tags: [][]vlTnode{{vlTLit("retries")}}, labels: []string{"corpus"}}, w)
+	}
+	// the same holder populated twice: the expression is evaluated on the CURRENT values, validation judges what is bound
+	hist := func(t *vlFty, cfg, set map[string]*vlCval, gate, args string, tree ...vlTnode) *vlVcase {
+		c := vlExprCase(t, cfg, args, tree...)
+		if gate == "a0" || gate == "a1" {
+			set[vlGateKey] = vlCInt(1)
+		}
+		c.kind, c.set, c.gate = "RE", vlCMap(set), gate
+		c.labels = []string{"corpus", "retry", "gate-" + gate}
+		return c
+	}
+	pool := func(n int64) map[string]*vlCval { return map[string]*vlCval{"size": vlCInt(n)} }
+	for _, gate := range []string{"a0", "a1", "w"} {
+		vlRunCase(hist(vlTI, pool(2), pool(21), gate, "", vlTExpr(vlTPH("size"), vlTLit("*2"))), w)
+		vlRunCase(hist(vlTI, pool(21), pool(2), gate, ",validate=min=10", vlTExpr(vlTPH("size"), vlTLit("+"), vlTPHD("extra", "0"))), w)
+		vlRunCase(hist(vlTI, pool(3), pool(30), gate, ",validate=max=10", vlTPH("size")), w)
+	}
+	vlRunCase(hist(vlTI, pool(2), pool(21), "n", ",validate=min=10", vlTExpr(vlTPH("size"), vlTLit("+"), vlTPHD("extra", "0"))), w)
+	vlRunCase(hist(vlTI, pool(2), pool(4), "n", ",validate=min=10", vlTExpr(vlTPH("size"), vlTLit("*2"))), w) // fails both times
+	vlRunCase(hist(vlTI, map[string]*vlCval{"kz": vlCStr("zz")}, pool(21), "n", "", vlTExpr(vlTPH("size"), vlTLit("*2"))), w)
+	vlRunCase(hist(vlTS, map[string]*vlCval{"a": two, "b": three, "op": vlCStr("+")}, map[string]*vlCval{"op": vlCStr("*")}, "w", "", vlTExpr(vlTPH("a"), vlTLit(" "), vlTPH("op"), vlTLit(" "), vlTPH("b"))), w)
+	vlRunCase(hist(vlTB, map[string]*vlCval{"t": vlCBool(true)}, map[string]*vlCval{"t": vlCBool(false)}, "a1", "", vlTExpr(vlTPH("t"), vlTLit(" && 1 < 2"))), w)
+	vlRunCase(hist(vlTS, map[string]*vlCval{"kz": vlCStr("zz")}, map[string]*vlCval{"kz": vlCStr("yy")}, "w", "", vlTExpr(vlTLit("1+2"))), w) // no placeholder at all
+	rq := &vlVcase{kind: "RQ", t: st, cfg: vlCMap(m("ab", 80)), set: vlCMap(m("a", 80)), gate: "w", args: ",validate", tags: [][]vlTnode{{vlTLit("k")}}, labels: []string{"corpus", "retry", "gate-w"}}
+	vlRunCase(rq, w)
 }
